@@ -220,6 +220,22 @@ example :
       [⟨"/c/job".toList, "/mnt/pydra/c/job".toList, true⟩, ⟨"/in dir".toList, "/mnt/pydra/in dir".toList, false⟩,
        ⟨"/c".toList, "/mnt/pydra/c".toList, true⟩] := by decide
 
+/-! ### the command's return code -/
+
+/-- the failure test of `Docker.execute` / `Singularity.execute` (regenerated from the source) is true on every
+    non-zero return code, negative ones (death by signal) included, and false on 0 -/
+theorem C27_rc_pinned :
+    EnvRegexes.dockerRcTest.failsOnNonzero = true ∧ EnvRegexes.singularityRcTest.failsOnNonzero = true
+    ∧ EnvRegexes.dockerRcTest.eval 0 = false ∧ EnvRegexes.singularityRcTest.eval 0 = false := by decide
+
+/-- FULL: whatever non-zero status the container runtime ends with, the task fails (RuntimeError) -/
+theorem C27_nonzero_fails (rc : Int) (h : rc ≠ 0) :
+    EnvRegexes.dockerRcTest.eval rc = true ∧ EnvRegexes.singularityRcTest.eval rc = true :=
+  ⟨PydraModel.JobProto.RcTest.failsOnNonzero_sound _ C27_rc_pinned.1 rc h,
+   PydraModel.JobProto.RcTest.failsOnNonzero_sound _ C27_rc_pinned.2.1 rc h⟩
+
+example : EnvRegexes.dockerRcTest.eval (-9) = true ∧ EnvRegexes.singularityRcTest.eval 137 = true := by decide
+
 /-! ### regression witnesses of the repaired defects -/
 
 /-- D17m (repaired): with plain last-writer-wins assignment the job directory holding a copied input was mounted
